@@ -247,8 +247,8 @@ impl<'a> Dfa<'a> {
                 let edge = self.graph.find_edge(parent_state, state).unwrap();
                 let grapheme = self.graph.edge_weight(edge).unwrap();
                 if grapheme.chars() == label.chars()
-                    && (grapheme.maximum() == label.maximum()
-                        || grapheme.minimum() == label.minimum())
+                    && grapheme.minimum() <= label.minimum()
+                    && label.maximum() <= grapheme.maximum()
                 {
                     x.insert(parent_state);
                     break;
